@@ -58,8 +58,19 @@ var hangs int
 func guarded(attempt func(ctx context.Context) error) (err error, hung bool) {
 	for _, bound := range []time.Duration{watchdog, watchdogConfirm} {
 		wctx, cancel := context.WithTimeout(context.Background(), bound)
-		err = attempt(wctx)
-		hung = wctx.Err() != nil
+		done := make(chan error, 1)
+		go func() { done <- attempt(wctx) }()
+		select {
+		case err = <-done:
+			hung = wctx.Err() != nil
+		case <-time.After(bound + 5*time.Second):
+			// the call does not even come back after its context ended (a loop that never looks
+			// at the context): it is left behind
+			cancel()
+			run.Count("watchdog-expired")
+			abandoned = true
+			return errors.New("the call ignores the cancellation of its context"), true
+		}
 		cancel()
 		if !hung {
 			return err, false
@@ -67,6 +78,27 @@ func guarded(attempt func(ctx context.Context) error) (err error, hung bool) {
 		run.Count("watchdog-expired")
 	}
 	return err, true
+}
+
+// abandoned: a guarded call was left behind running; its destination must not be touched any more
+var abandoned bool
+
+// bounded runs f (a call that takes no context or may loop without looking at it: findRoots'
+// loop) in a goroutine; false = it did not come back within the bound (the goroutine is left behind).
+func bounded(f func()) bool {
+	done := make(chan struct{})
+	go func() { defer close(done); f() }()
+	for _, bound := range []time.Duration{watchdog, watchdogConfirm} {
+		t := time.NewTimer(bound)
+		select {
+		case <-done:
+			t.Stop()
+			return true
+		case <-t.C:
+			run.Count("watchdog-expired")
+		}
+	}
+	return false
 }
 
 // faultSrc fails the countdown-th source operation (Predecessors, Fetch, Referrers) with errInjected.
@@ -880,7 +912,12 @@ func runCase(spec *caseSpec) {
 	if remoteTruth {
 		countedSrc = faultLister{counter}
 	}
-	roots, err := oras.VerifFindRoots(ctx, countedSrc, startDesc, opts)
+	var roots []ocispec.Descriptor
+	if !bounded(func() { roots, err = oras.VerifFindRoots(ctx, countedSrc, startDesc, opts) }) {
+		hangs++
+		fail("findroots-hang", fmt.Sprintf("findRoots did not return within %v", watchdog+watchdogConfirm))
+		return
+	}
 	obs := "ERR"
 	var rootIDs []int
 	if err == nil {
@@ -944,7 +981,13 @@ func runCase(spec *caseSpec) {
 			src = faultLister{fsrc}
 		}
 		eid := run.NewID()
-		froots, ferr := oras.VerifFindRoots(ctx, src, startDesc, buildOpts(spec, fs))
+		var froots []ocispec.Descriptor
+		var ferr error
+		if !bounded(func() { froots, ferr = oras.VerifFindRoots(ctx, src, startDesc, buildOpts(spec, fs)) }) {
+			hangs++
+			run.OracleFail(eid, "findroots-hang", fmt.Sprintf("findRoots with a failing operation did not return within %v", watchdog+watchdogConfirm), spec)
+			return
+		}
 		eobs := "ERR"
 		if ferr == nil {
 			seen := map[int]bool{}
@@ -1136,6 +1179,11 @@ func runCase(spec *caseSpec) {
 			}
 			return oras.ExtendedCopyGraph(wctx, src, dst, startDesc, buildOpts(spec, fs))
 		})
+		if abandoned {
+			hangs++
+			fail("copy-hang", fmt.Sprintf("%s did not return, not even after its context was cancelled (Concurrency %d)", what, spec.Conc))
+			return
+		}
 		if clean == nil {
 			run.Count("destination-build-failed")
 			fmt.Fprintln(os.Stderr, "destination build failed:", err)
@@ -1213,7 +1261,10 @@ func runCase(spec *caseSpec) {
 			desc, cerr = oras.ExtendedCopy(wctx, b.store, startTag(spec.Start), dst, spec.DstRef, eopts)
 			return cerr
 		})
-		if clean == nil {
+		if abandoned {
+			hangs++
+			fail("copy-hang", fmt.Sprintf("ExtendedCopy did not return, not even after its context was cancelled (Concurrency %d)", spec.Conc))
+		} else if clean == nil {
 			run.Count("destination-build-failed")
 		} else {
 			if hung {
